@@ -24,8 +24,8 @@ const btWhy = "UseBoundedBacktracker is selected only for start-anchored pattern
 func init() {
 	core.Register(&core.Rule{
 		Name: "R-LOOPARG",
-		Doc: "Searches resumed at an offset receive the full haystack: in a function that takes (haystack []byte, at int), a call of a matching engine (any module method or function with a []byte parameter outside the byte-search packages simd/prefilter) must pass the function's own haystack parameter, not haystack[at:] or another re-slice whose low bound is not 0: zero-width assertions (^, (?m)^, \\b, \\B) at the resume position must see the bytes before it. Re-slicing is sound only for engines whose patterns cannot contain look-behind assertions; such sites are exempted by name with that reason. Necessary for C04 (look-behind assertions see the bytes before the resume position) and C08 (replace loops).",
-		Min: 180, NeedSSA: true,
+		Doc: "Searches resumed at an offset receive the full haystack: in a function of meta or the root package that takes a haystack (with or without a resume offset), a call of a matching engine (any module method or function with a []byte parameter outside the byte-search packages simd/prefilter) must pass the function's own haystack parameter, not haystack[at:] or another re-slice whose low bound is not 0: zero-width assertions (^, (?m)^, \\b, \\B) at the resume position must see the bytes before it. Re-slicing is sound only for engines whose patterns cannot contain look-behind assertions; such sites are exempted by name with that reason. (A window cut at a prefilter candidate has a second problem: an unanchored engine call finds the rest of the pattern anywhere in the window, not at the candidate - ReverseInner's suffix check, repaired.) Necessary for C04 (look-behind assertions see the bytes before the resume position) and C08 (replace loops).",
+		Min: 400, NeedSSA: true,
 		Run: func(p *core.Prog) *core.RuleResult {
 			res := &core.RuleResult{}
 			kc := core.NewKeyCounter()
@@ -46,9 +46,12 @@ func init() {
 						at = prm
 					}
 				}
-				if hay == nil || at == nil {
+				if hay == nil {
 					continue
 				}
+				// functions without a resume offset (Find(haystack), IsMatch(haystack)) are subject too: a window
+				// cut at a candidate position loses the same context, and an unanchored engine call on it
+				// finds the rest of the pattern anywhere in the window, not at the candidate
 				for _, b := range fn.Blocks {
 					for _, in := range b.Instrs {
 						c, ok := in.(*ssa.Call)
@@ -95,7 +98,7 @@ func init() {
 								}
 								if sl.Low != nil {
 									resliced = true
-									if dependsOn(sl.Low, at, map[ssa.Value]bool{}) {
+									if at != nil && dependsOn(sl.Low, at, map[ssa.Value]bool{}) {
 										lowFromAt = true
 									}
 								}
